@@ -32,6 +32,7 @@ struct PlanValue {
     QString str;    // a string of that class (non-blank, no white space at the edges)
     QString plain;  // a plain string for the same field (structure baseline)
     int idx = 0;    // walks through the range of typed fields
+    int shape = -1; // list-valued fields: which member of the list lattice (-1: idx chooses)
 };
 
 struct ObjectType {
@@ -81,6 +82,69 @@ struct Field {
     std::function<void(T &, const PlanValue &, bool plain)> set;
     std::function<QString(const T &)> get;
 };
+
+// The value lattice of a list-valued field (ListShapes of spec/Codec.tla): empty list, singleton, two
+// distinct members, two EQUAL members, equal but not adjacent (a,b,a), members differing only in
+// case, members differing only in inner white space, an empty-string member.  `a` is the string the
+// plan's character class chose for the field.  minSize = 1 for lists the protocol requires to be
+// non-empty (the empty shape becomes the singleton).
+constexpr int ListShapes = 8;
+inline const char *listShapeName(int s)
+{
+    static const char *n[] = { "empty", "one", "two", "dup", "aba", "case", "space", "emptymember" };
+    return n[((s % ListShapes) + ListShapes) % ListShapes];
+}
+inline int listShape(const PlanValue &v) { return ((v.shape >= 0 ? v.shape : v.idx) % ListShapes + ListShapes) % ListShapes; }
+inline QStringList members(const PlanValue &v, bool plain, int minSize = 0)
+{
+    const QString a = plain ? v.plain : v.str;
+    const QString b = plain ? v.plain + QStringLiteral("2") : QStringLiteral("second");
+    switch (listShape(v)) {
+    case 0:
+        return minSize > 0 ? QStringList { a } : QStringList {};
+    case 1:
+        return { a };
+    case 2:
+        return { a, b };
+    case 3:
+        return { a, a };
+    case 4:
+        return { a, b, a };
+    case 5:
+        return { a + QStringLiteral("x"), a + QStringLiteral("X") };
+    case 6:
+        return { a + QStringLiteral(" y"), a + QStringLiteral("  y") };
+    default:
+        return { a, QString() };
+    }
+}
+// order and multiplicity are part of the value; the count distinguishes [] from [""]
+inline QString list2s(const QStringList &l) { return QString::number(l.size()) + QChar(':') + l.join(QChar(0x1f)); }
+template<typename C>
+QStringList toStrings(const C &c)
+{
+    QStringList l;
+    for (const auto &x : c) {
+        l << x;
+    }
+    return l;
+}
+template<typename C>
+C fromStrings(const QStringList &l)
+{
+    C c;
+    for (const auto &x : l) {
+        c.push_back(x);
+    }
+    return c;
+}
+// set semantics (documented per field where it is used): order and multiplicity are not part of the value
+inline QString set2s(QStringList l)
+{
+    l.removeDuplicates();
+    l.sort();
+    return list2s(l);
+}
 
 inline QString b2s(bool b) { return b ? QStringLiteral("true") : QStringLiteral("false"); }
 inline QString dt2s(const QDateTime &d) { return d.isValid() ? d.toUTC().toString(Qt::ISODateWithMs) : QStringLiteral("(invalid)"); }
@@ -249,6 +313,10 @@ ObjectType makeType(const QString &name, QVector<Field<T>> fs, std::function<voi
 #define F_DT(T, NAME, SETTER, GETTER)                                                                                                       \
     qxvfields::Field<T> { NAME, "datetime", [](T &o, const PlanValue &v, bool) { o.SETTER(qxvfields::dateTimes()[v.idx % qxvfields::dateTimes().size()]); }, \
                           [](const T &o) { return qxvfields::dt2s(o.GETTER()); } }
+// list of strings with QStringList setter/getter: the whole sequence (order, multiplicity) must come back
+#define F_LIST(T, NAME, SETTER, GETTER)                                                                                  \
+    qxvfields::Field<T> { NAME, "list:str", [](T &o, const PlanValue &v, bool plain) { o.SETTER(qxvfields::members(v, plain)); }, \
+                          [](const T &o) { return qxvfields::list2s(qxvfields::toStrings(o.GETTER())); } }
 // public data members (private nonza structs)
 #define M_STR(T, MEMBER) \
     qxvfields::Field<T> { #MEMBER, "str", [](T &o, const PlanValue &v, bool plain) { o.MEMBER = plain ? v.plain : v.str; }, [](const T &o) { return QString(o.MEMBER); } }
@@ -269,5 +337,5 @@ ObjectType makeType(const QString &name, QVector<Field<T>> fs, std::function<voi
 #define F_CUSTOM(T, NAME, KIND, S, G) qxvfields::Field<T> { NAME, KIND, S, G }
 
 const QVector<ObjectType> &objectTypes();
-QJsonObject objectCase(Ctx &ctx, const QString &cls, int map, const QJsonArray &vals, int variant, bool logGetters = false);
+QJsonObject objectCase(Ctx &ctx, const QString &cls, int map, const QJsonArray &vals, int variant, bool logGetters = false, int shape = -1);
 QJsonObject scalarChecks();
